@@ -236,6 +236,18 @@ func (d *errL1) Transfer(n *Node, s Store) []Store {
 					d.over[varKey(v)+"@"+s.Get("U:"+varKey(v))] = n
 				}
 			}
+			// an error of a later step is returned instead: the pending errors of
+			// earlier best-effort steps are superseded (some error is reported)
+			last := rs.Results[len(rs.Results)-1]
+			if isErrorType(info.TypeOf(last)) && !isNilIdent(info, last) {
+				if lv, ok := identObj(info, last).(*types.Var); ok && d.ev.vars[lv] {
+					for _, k := range s.Keys("U:") {
+						if k != "U:"+varKey(lv) {
+							s = s.Without(k)
+						}
+					}
+				}
+			}
 		}
 	}
 	for v, rhs := range defs {
@@ -269,6 +281,10 @@ var acceptedUnbound = map[string]string{
 	modPath + "/internal/plugin.GRPCControllerClient.Shutdown": "graceful-stop request; Kill force-kills afterwards regardless of the answer",
 	modPath + "/runner.AttachedRunner.Wait":                    "reattached process wait; only the fact of exit matters",
 	"fmt.Fprintf":                                              "diagnostic to stderr",
+	"fmt.Fprint":                                               "diagnostic to stderr",
+	"fmt.Fprintln":                                             "diagnostic to stderr",
+	"fmt.Println":                                              "handshake line print (R-TABLE/handshake checks what is printed); cannot be retried",
+	"fmt.Print":                                                "handshake line print; cannot be retried",
 	"fmt.Printf":                                               "handshake line print; followed by Sync; cannot be retried",
 	"github.com/oklog/run.Group.Run":                           "the actors' errors are handled by their interrupt functions",
 	"io.Copy":                                                  "drain to EOF; the error is the termination signal itself",
